@@ -20,12 +20,12 @@ var groupedTypes = map[uint16]bool{
 }
 
 type PFCPMsg struct {
-	Flags  uint8
-	Type   uint8
+	Flags   uint8
+	Type    uint8
 	HasSEID bool
-	SEID   uint64
-	Seq    uint32
-	IEs    []*TLV
+	SEID    uint64
+	Seq     uint32
+	IEs     []*TLV
 }
 
 func parseTLVs(b []byte, depth int) ([]*TLV, bool) {
